@@ -1128,6 +1128,27 @@ def rule_s_pname_sanitised(repo: Repo, rep: Report) -> None:
                 if c.func.attr == "endswith" and len(c.args) == 1 and isinstance(c.args[0], ast.Constant) and any(
                         isinstance(p, ast.If) and any(c is x for x in ast.walk(p.test)) for p in mod.parents(c)):
                     ends.add(c.args[0].value)
+            # ... or the not-a-local-part test is a compiled pattern applied to the local part: `if PATTERN.search(local):`
+            if isinstance(c, ast.Call) and isinstance(c.func, ast.Attribute) and c.func.attr in ("search", "match", "fullmatch") and isinstance(c.func.value, ast.Name) and c.args \
+                    and isinstance(root(c.args[0]), ast.Name) and root(c.args[0]).id in der \
+                    and any(isinstance(p, ast.If) and any(c is x for x in ast.walk(p.test)) for p in mod.parents(c)):
+                a0 = c.args[0]
+                # (a test of the PREFIX part - parts[0], or the first name of `prefix, namespace, local = parts` - is not about the local part)
+                is_prefix_part = isinstance(a0, ast.Subscript) and isinstance(a0.slice, ast.Constant) and a0.slice.value == 0 or isinstance(a0, ast.Name) and any(
+                    isinstance(x, ast.Assign) and isinstance(x.targets[0], ast.Tuple) and x.targets[0].elts and norm(x.targets[0].elts[0]) == a0.id for x in own_nodes(fn))
+                if is_prefix_part:
+                    continue
+                pat = None
+                for mm in (mod, repo.mod("rdflib.namespace")):
+                    for st in mm.tree.body:
+                        if isinstance(st, ast.Assign) and norm(st.targets[0]) == c.func.value.id and isinstance(st.value, ast.Call) and norm(st.value.func) in ("re.compile", "compile") and st.value.args:
+                            try:
+                                pat = ast.literal_eval(st.value.args[0])
+                            except Exception:
+                                pat = norm(st.value.args[0])
+                    if pat is not None:
+                        break
+                ends.add("pattern %s.%s(%r)" % (c.func.value.id, c.func.attr, pat))
         facts[q] = (mod, fn, reps, ends)
     ref_q = sites[0][1]
     _, _, rreps, rends = facts[ref_q]
